@@ -11,6 +11,7 @@ import (
 func init() {
 	rt.Register("c12", Run)
 	rt.Register("c12cq", RunCQ)
+	rt.Register("c12mc", RunMC)
 	rt.Register("c12probe", RunProbe)
 }
 
